@@ -139,8 +139,8 @@ func (s *TorSpec) Bytes(off, n int64) []byte {
 
 func genSparse(st *simrt.Stream, o SpecOpts) *TorSpec {
 	s := &TorSpec{Trackers: o.Trackers, URLList: o.URLList, HTTPSeeds: o.HTTPSeeds, Sparse: true, live: map[int]bool{}, cache: map[int][]byte{}}
-	ps := simrt.Pick(st, int64(256<<10), 384<<10, 1<<20, 208<<10) // (storrent's periodic work is linear in the number of pieces: keep it in the tens of thousands)
-	first := int((int64(1)<<32 + ps - 1) / ps)                    // first piece that starts at or beyond 4 GiB
+	ps := simrt.Pick(st, int64(256<<10), 384<<10, 1<<20, 208<<10, 2<<20) // (storrent's periodic work is linear in the number of pieces: keep it in the tens of thousands)
+	first := int((int64(1)<<32 + ps - 1) / ps)                           // first piece that starts at or beyond 4 GiB
 	n := first + 1 + st.Choice(3)
 	length := int64(n) * ps
 	switch st.Weighted(3, 3, 2, 2) {
